@@ -306,7 +306,7 @@ Definition show_gz (t : gz) : string :=
   match t with
   | ZPin f => "pin." ++ show_zf f | ZCfg f => "config." ++ show_zf f | ZLocal n => n
   | ZLenAllocs => "len(pin.Allocations)" | ZLenBlacklist => "len(blacklist)"
-  | ZK z => if z =? -1 then "-1" else if z =? 0 then "0" else if z =? 1 then "1" else "<const>" end.
+  | ZK z => NilZero.string_of_int (Z.to_int z) end.
 Definition show_who (w : who) : string := match w with WPin => "pin" | WExisting => "existing" end.
 Definition show_ty (t : ptype) : string := match t with BadT => "Bad" | DataT => "Data" | MetaT => "Meta" | ClusterDAGT => "ClusterDAG" | ShardT => "Shard" end.
 Fixpoint show_gc (c : gcond) : string :=
@@ -347,5 +347,20 @@ Fixpoint steps_diag_f (fuel : nat) (fn : string) (i : nat) (names : list string)
   | [], m :: mr => (pos ++ ": the model has one more step: `" ++ show_step m ++ "`") :: steps_diag_f fuel fn (S i) [] [] mr
   end
   end.
+(* common prefix and suffix are dropped first, so that one inserted or removed step is reported as such *)
+Fixpoint strip_prefix (i : nat) (names : list string) (gs ms : list gstep) : nat * list string * list gstep * list gstep :=
+  match gs, ms with
+  | g :: gr, m :: mr => if gstep_eqb g m then strip_prefix (S i) (tl names) gr mr else (i, names, gs, ms)
+  | _, _ => (i, names, gs, ms) end.
+Fixpoint common_suffix_len (a b : list gstep) : nat :=
+  match a, b with
+  | x :: xs, y :: ys => if gstep_eqb x y then S (common_suffix_len xs ys) else 0
+  | _, _ => 0 end.
 Definition steps_diag (fn : string) (names : list string) (gs ms : list gstep) : list string :=
-  steps_diag_f (List.length gs + List.length ms) fn 0 names gs ms.
+  match strip_prefix 0 names gs ms with
+  | (i, names1, gs1, ms1) =>
+      let k := common_suffix_len (List.rev gs1) (List.rev ms1) in
+      let gs2 := firstn (List.length gs1 - k) gs1 in
+      let ms2 := firstn (List.length ms1 - k) ms1 in
+      steps_diag_f (List.length gs2 + List.length ms2) fn i names1 gs2 ms2
+  end.
